@@ -34,10 +34,12 @@ var c13DivTable = map[string]c13DivEntry{
 	"divisor fasttime.powersOf10[]":                      {max: 1, reason: "constant table of powers of ten", check: c13CheckPowersOf10},
 	"divisor sampler.DurationSegment.resolution":         {max: 1, reason: "segments is a constant table with non-zero resolutions", check: c13CheckSegments},
 	"divisor ratelimiter.Policy.LimitForPeriod":          {max: 1, reason: "RateLimiter filter: schema minimum=1 and 0 is replaced by 50 when the limiter is created; MQTTProxy creates a limiter only for rates > 0", check: c13CheckLimitForPeriod},
-	"divisor ratelimiter.Policy.LimitRefreshPeriod": {max: 2, class: c13Defect,
-		reason: "RateLimiter policy `limitRefreshPeriod: 0s` passes validation (format=duration only requires time.ParseDuration to succeed); the limiter is created with period 0 and the first request panics with an integer divide by zero",
-		fields: []c13Field{{"pkg/filters/ratelimiter", "Policy", "LimitRefreshPeriod"}}},
-	"divisor ratelimiter.MultiPolicy.LimitRefreshPeriod":       {max: 2, reason: "only MQTTProxy builds a MultiPolicy, with refresh = timePeriod seconds and timePeriod forced >= 1 in newLimiter"},
+	"divisor ratelimiter.Policy.LimitRefreshPeriod": {max: 2,
+		reason: "every value that reaches Policy.LimitRefreshPeriod is positive: the RateLimiter filter parses a spec field that its Spec.Validate requires to be positive (or uses 10ms), MQTTProxy passes timePeriod seconds with timePeriod forced >= 1",
+		check:  c13CheckPeriodPositive(c13RL, "Policy")},
+	"divisor ratelimiter.MultiPolicy.LimitRefreshPeriod": {max: 2,
+		reason: "every value that reaches MultiPolicy.LimitRefreshPeriod is positive: only MQTTProxy builds a MultiPolicy, with refresh = timePeriod seconds and timePeriod forced >= 1",
+		check:  c13CheckPeriodPositive(c13RL, "MultiPolicy")},
 	"divisor ratelimiter.MultiPolicy.LimitForPeriod[]":         {max: 1, reason: "only MQTTProxy builds a MultiPolicy, and only when both rates are > 0 (newLimiter)"},
 	"Intn argument resilience.RetryPolicy.RandomizationFactor": {max: 1, reason: "delta = base*randomizationFactor >= 0: factor has schema minimum=0 and CreateWrapper forces waitDuration > 0, so the argument is >= 1", check: c13CheckRetryFactor},
 	"Intn argument proxy.WeightedRandomLoadBalancer.totalWeight": {max: 1, class: c13Defect,
